@@ -21,7 +21,9 @@ fn main() {
             Err(e) => println!("vm error: {e}"),
         }
         for d in real::diagnostics(&text) {
-            println!("diag: {:?}", d);
+            if d.0 != "undefined-global" {
+                println!("diag: {:?}", d);
+            }
         }
         return;
     }
